@@ -669,6 +669,17 @@ Definition step (cfg : config) (s : state) (o : op) : state * obs :=
   | ODevicePoll auth dev => device_poll cfg s auth dev
   end.
 
+(* the client a request is made for and what it asks for, for every operation that carries a requested scope/audience *)
+Definition request_of (o : op) : option (nat * list string * list aurl) :=
+  match o with
+  | OAuthorize a => Some (az_client a, az_scopes a, az_aud a)
+  | OPassword (Some c) _ sc au _ _ => Some (c, sc, au)
+  | OClientCreds (Some c) sc au _ _ => Some (c, sc, au)
+  | OPush (Some c) _ _ a => Some (c, az_scopes a, az_aud a)
+  | ODeviceAuth (Some c) _ sc au => Some (c, sc, au)
+  | _ => None
+  end.
+
 Definition run (cfg : config) (s : state) (h : list op) : state :=
   fold_left (fun s o => fst (step cfg s o)) h s.
 
